@@ -30,7 +30,9 @@ EXPLANATION = (
     "any function of the broadcaster module. Not decided: that the aligned values are right. Exception paths between "
     "acquire and release are not covered (the property speaks about calls that return).")
 EXPLANATION += (' R-C13-4: the acquire helper gives placeholders exactly to the level names that are None (identity test, not truthiness), the release helper resets exactly the placeholders, and where an aligned pair is re-ordered both results are re-ordered to the canonical level order.')
+EXPLANATION += (" R-C13-5: the index cache gives every level its own range of integer codes (position in the level's key table plus a cumulative per-level offset) and the decoding subtracts exactly that offset; bare positions would let the re-coded indices of operands with different level names or orders compare equal, in which case align() returns them un-aligned.")
 ASSUMPTIONS = [
+    "pandas align/join return both operands unchanged when their indices compare equal, and Index.equals ignores level names",
     "pandas methods without inplace=True return new objects (align, join, reorder_levels, groupby().first(), iloc)",
     "assigning obj.index.names mutates the Index object held by obj (so a saved Index keeps a placeholder name until the "
     "name release ran on it: this is why LIFO order matters)",
@@ -283,6 +285,76 @@ def run(ctx):
     # zero-expected rule: positive example that must match on every run
     _positive_example(ctx)
     ctx.attempt(lambda c: _r4(c, acquire, release))
+    ctx.attempt(lambda c: _r5(c, cache))
+
+
+def _r5(ctx, cache):
+    """The index cache replaces every level's keys by integer codes before the operands are aligned.  pandas' align/join
+    take a short cut when the two indices compare equal, and Index.equals ignores level names (assumption below), so the
+    codes of differently named levels must not be able to coincide: (A,B) against (B,C) - or (B,A) - with equally sized levels
+    would otherwise be returned un-aligned.  Codes must therefore be unique per level (disjoint ranges), and the decoding
+    must undo exactly that."""
+    prog = ctx.prog
+    ctx.rule("R-C13-5", floor=2, what="re-coded index values are unique per level name (disjoint code ranges); decode inverts encode")
+    ci = cache if hasattr(cache, 'methods') else cache.cls
+    enc, dec = [], []
+    for name, fs in ci.methods.items():
+        f = fs[-1]
+        for c in calls_in(f.node):
+            if isinstance(c.func, ast.Attribute) and c.func.attr in ("get_indexer_for", "get_indexer"):
+                enc.append((f, c))
+        for n in ast.walk(f.node):
+            if isinstance(n, ast.Subscript) and isinstance(n.value, ast.Subscript) and is_self_attr(n.value.value) and \
+                    isinstance(n.ctx, ast.Load) and any(isinstance(x, ast.Call) or isinstance(x, ast.Name) for x in ast.walk(n.slice)) \
+                    and f.name != "__init__":
+                dec.append((f, n))
+    if not enc or not dec:
+        raise AnalysisError("index cache: encoding (get_indexer_for) / decoding sites not found")
+
+    def level_key(e):
+        # the level-name expression a per-level table is subscripted with
+        return norm_text(e.slice) if isinstance(e, ast.Subscript) else None
+
+    def offset_term(expr, op):
+        # expr == <inner> (op) self.<table>[<level key>]
+        if isinstance(expr, ast.BinOp) and isinstance(expr.op, op) and isinstance(expr.right, ast.Subscript) and \
+                is_self_attr(expr.right.value):
+            return expr.right.value.attr, level_key(expr.right)
+        return None
+    tables = set()
+    for f, c in enc:
+        par = c._parent
+        got = offset_term(par, ast.Add) if isinstance(par, ast.BinOp) and par.left is c else None
+        lvl = level_key(c.func.value) if isinstance(c.func.value, ast.Subscript) else None
+        if got and got[1] == lvl:
+            tables.add(got[0])
+            ctx.holds(f, c, "%s: code = position in the level's key table + self.%s[%s] (per-level offset)" % (f.name, got[0], lvl))
+        else:
+            ctx.violated(f, c, "%s: level keys are re-coded as bare positions %s; the codes of differently named levels share the "
+                         "range 0..n-1, so the re-coded indices of operands with different level names or orders (e.g. (A,B) "
+                         "against (B,C) with equally sized levels) compare equal and align() returns them un-aligned" %
+                         (f.name, norm_text(c)), text="bare positions " + f.name + " " + norm_text(c.args[0])[:40] if c.args else f.name)
+    for f, n in dec:
+        got = offset_term(n.slice, ast.Sub)
+        lvl = level_key(n.value)
+        if got and got[1] == lvl and (not tables or got[0] in tables):
+            ctx.holds(f, n, "%s: decode subtracts the same per-level offset" % f.name)
+        elif tables:
+            ctx.violated(f, n, "%s: decoding %s does not subtract the per-level offset self.%s[...] that the encoding adds" %
+                         (f.name, norm_text(n), sorted(tables)[0]), text="decode " + norm_text(n)[:60])
+    # the offsets are cumulative sizes of the level tables: ranges are disjoint
+    init = prog.lookup_method(ci, "__init__")
+    for t in sorted(tables):
+        acc = [s_ for s_ in walk_function(init.node) if isinstance(s_, ast.AugAssign) and isinstance(s_.op, ast.Add) and
+               isinstance(s_.value, ast.Call) and call_name(s_.value) == "len"]
+        st = [s_ for s_ in walk_function(init.node) if isinstance(s_, ast.Assign) and isinstance(s_.targets[0], ast.Subscript) and
+              is_self_attr(s_.targets[0].value, t) and isinstance(s_.value, ast.Name)]
+        if acc and st and isinstance(acc[0].target, ast.Name) and acc[0].target.id == st[0].value.id and \
+                acc[0]._parent is st[0]._parent and isinstance(st[0]._parent, ast.For):
+            ctx.holds(init, st[0], "self.%s[level] = running sum of the sizes of the preceding level tables: disjoint code ranges" % t)
+        else:
+            ctx.violated(init, st[0] if st else init.node, "the per-level offsets self.%s are not cumulative table sizes; code ranges "
+                         "may overlap" % t, text="offsets " + t)
 
 
 def _r4(ctx, acquire, release):
@@ -389,6 +461,27 @@ F2F = "Broadcaster._broadcast_frame_to_frame"
 
 def variants():
     out = []
+
+    def bare_positions(tree):
+        f = find_func(tree, "_IndexLevelCache._make_new_index")
+        n = 0
+        for b in list(ast.walk(f)):
+            if isinstance(b, ast.BinOp) and isinstance(b.op, ast.Add) and isinstance(b.left, ast.Call) and \
+                    isinstance(b.left.func, ast.Attribute) and b.left.func.attr == "get_indexer_for":
+                replace_node(b, b.left)
+                n += 1
+        return n > 0
+    out.append(witness("level keys re-coded as bare positions", PATH, bare_positions, "R-C13-5"))
+
+    def decode_without_offset(tree):
+        f = find_func(tree, "_IndexLevelCache.restore_real_index")
+        for b in list(ast.walk(f)):
+            if isinstance(b, ast.BinOp) and isinstance(b.op, ast.Sub) and isinstance(b.right, ast.Subscript) and \
+                    is_self_attr(b.right.value, "_offsets"):
+                replace_node(b, b.left)
+                return True
+        return False
+    out.append(witness("decoding forgets the per-level offset", PATH, decode_without_offset, "R-C13-5"))
 
     def truthy_names(tree):
         f = find_func(tree, "_replace_none_index_names_with_unique_string")
